@@ -128,6 +128,7 @@ def gen_pairs(ctx):
             B = ("known", o)
         else:
             B = G.gen_ty(rng, depth, allow_any=any_ok)
+        A, B = G.norm_term(A), G.norm_term(B)
         if B[0] == "many" or A[0] == "many":
             continue
         pairs.append((A, B))
